@@ -1275,6 +1275,12 @@ public:
     if (assignCost.getNumberOfColumns() != dim)
       throw Exception("MatrixTools::lap. Cost matrix should be scare.");
 
+    // the output vectors get one element per row / column of the cost matrix.
+    rowSol.resize(dim);
+    colSol.resize(dim);
+    u.resize(dim);
+    v.resize(dim);
+
     bool unassignedFound;
     size_t i, iMin;
     size_t numFree = 0, previousNumFree, f, k, freeRow;
